@@ -288,3 +288,17 @@ Theorem C01_source_ref_expect : forall k hapx female has_build c,
      (Proofs.FnCallRefExpect.is_x c) (Proofs.FnCallRefExpect.is_y c) has_build (Proofs.FnCallRefExpect.is_pary c)
   = ref_expect k hapx female c.
 Proof. exact Proofs.FnCallRefExpect.source_ref_expect. Qed.
+
+(* ---- source tie of do_call's dispatch between the calling paths (Gen/FnCallDispatch.v, regenerated from the
+   Python source on every run): the purity-adjusted path is taken exactly when use_purity answers (purity given,
+   non-zero, below 1), the pure clonal path otherwise for method "clonal", and "threshold" overrides `absolutes` *)
+From CNV Require Gen.FnCallDispatch Proofs.FnCallDispatch.
+Theorem C01_source_dispatch : forall purity m variants l b cc lr br pure thr toks,
+  Gen.FnCallDispatch.fn_dispatch purity m variants l b cc lr br pure thr toks
+  = let '(a, l', b') :=
+        match use_purity purity with
+        | Some _ => (cc, lr, if variants then br else b)
+        | None => ((if String.eqb m "clonal" then pure else inject_Z 0), l, b)
+        end in
+    ((if String.eqb m "threshold" then thr else a), l', b').
+Proof. exact Proofs.FnCallDispatch.source_dispatch. Qed.
